@@ -25,6 +25,7 @@ structure GAttrs where
   ref : Option Path := none                  -- the `other` / `ref_pos` attribute: a reference by field name
   members : List (String × Option Kind) := []  -- the `fields` dict of a collection (none = collection)
   sameAs : Option Path := none               -- `same_as`: the array of this field is stored in the group of that field
+  tref : Option Path := none                 -- the `time` attribute (registered by users of the library) as a reference by name
   src : Nat := 0                             -- *ghost*: the heap id of the array written here (never read)
   deriving Repr, Inhabited
 
@@ -151,6 +152,8 @@ def writeDS (h : Heap) (d : DS) (lvl : Nat) : M File :=
 structure RSt where
   heap : Heap := []
   memo : List (Path × Nat) := []
+  /-- the `time` attribute of the objects made so far (`Model/H5Time.lean`; the functions of this file never look at it) -/
+  tm : List (Option Nat) := []
   deriving Repr, Inhabited
 
 def RSt.alloc (s : RSt) (o : Obj) : Nat × RSt := (s.heap.length, { s with heap := s.heap ++ [o] })
@@ -385,6 +388,16 @@ def writableB (h : Heap) (d : DS) (lvl : Nat) : Bool :=
     nodupB (leafObjs (restrictFields lvl d.fields))
 
 def Writable (h : Heap) (d : DS) (lvl : Nat) : Prop := writableB h d lvl = true
+
+/-- **"a dataset that can be written"**, arrays shared between fields included: as `writableB` without the clause
+"pairwise different array objects" (since the `fix:` an array held by several fields is stored once) -/
+def writableSB (h : Heap) (d : DS) (lvl : Nat) : Bool :=
+  heapOK h && fieldsOK h d.numObs (restrictFields lvl d.fields) && namesOK (restrictFields lvl d.fields)
+
+def WritableS (h : Heap) (d : DS) (lvl : Nat) : Prop := writableSB h d lvl = true
+
+instance (h : Heap) (d : DS) (lvl : Nat) : Decidable (WritableS h d lvl) :=
+  inferInstanceAs (Decidable (writableSB h d lvl = true))
 
 instance (h : Heap) (d : DS) (lvl : Nat) : Decidable (Writable h d lvl) :=
   inferInstanceAs (Decidable (writableB h d lvl = true))
